@@ -9,6 +9,7 @@ from harness.flatten import flatten, coq_q, coq_list, coq_bool
 from harness import coqtool
 
 PROPS_FILE = "P_C13"
+COQ_TARGETS = ["CaseLib"]
 RULE = ("correspondence: flatten(qclib.gates.ucr.ucr(r, angles, e, last)) compared gate by gate (exact rational angles) "
         "with the Coq model UcrModel.run_q evaluated by vm_compute, for dyadic angle lists (families: random, zeros, "
         "constant (all leaves but one skipped), sub-threshold, huge); direct evaluation: Operator of the circuit vs the "
